@@ -146,6 +146,15 @@ CLAIMED = {
             'Pools are finite (enumerated by the solver); IDNA codec and ipaddress run concretely (stdlib); utf-8 only; port 0 read as default is an '
             'observation.',
             'DESIGN.md 3/C10', 'kernel characters/integers symbolic; pool indices and transformation enumerated'),
+    'C20': ('other',
+            'Bounded symbolic verification of the real RobotsTxtChecker / RobotsTxtPool / FetchRule / WebProcessorSession / HTMLScraper over a '
+            'scripted stub server: the status code of the robots.txt response is a symbolic integer 100..599 after 0-2 redirects with protocol '
+            'and network errors; request logs of 2-3 URLs on origins differing in scheme/host/port in symbolic order must show robots.txt '
+            'strictly first and once per origin, no disallowed URL, postponement on 5xx; structured rule files against an independent prefix '
+            'matcher; file sizes around the 4096 boundary with the rule at the end; meta-robots nofollow over a stub parser.',
+            'Trusts the stub HTTP client/table and in-memory temp files; HTML tokenisation (html5lib/lxml cannot run here), wildcard and Allow '
+            'semantics of the third-party matcher outside the claim.',
+            'DESIGN.md 3/C20', 'status code symbolic int; origins, order, rule shapes, sizes by symbolic index'),
 }
 
 NOT_APPLICABLE = {
@@ -155,7 +164,7 @@ NOT_APPLICABLE = {
 }
 
 PENDING = {k: 'claimed in DESIGN.md 3 but its check is not built yet at this commit' for k in
-           'C09 C20'.split()}
+           'C09'.split()}
 
 
 def main():
